@@ -160,7 +160,7 @@ def asgi_stream(ctx, events, delays, charset, ping=1.0, share=False):
                     await asyncio.sleep(d)
                 yield ev if share else dict(ev)
         resp = asgi.SendEventResponse(gen(), ping_interval=ping, charset=charset)
-        r = drivers.run_asgi(resp, drivers.to_scope(drivers.Req()), the_loop=lp)
+        r = drivers.run_asgi(resp, drivers.to_scope(drivers.Req()), the_loop=lp, timeout=10_000.0)  # virtual seconds
     finally:
         lp.run_until_complete(lp.shutdown_asyncgens())
         lp.close()
